@@ -28,9 +28,10 @@ META = dict(
 HARNESSES = [(("conc", "cov", ["conc.cpp"]), dict(extra=["-rdynamic"], cov_sources=["canary.cpp"])),
              (("conc_tsan", "tsan", ["conc_tsan.cpp", "canary.cpp"]), {})]
 
-NOPS = 7          # library ops O1..O7 (ids 0..6); canaries are 7, 8
+NOPS = 9          # library ops O1..O9 (ids 0..8); the canaries follow
 OPNAMES = ["O1_mssm_gm2calc_build_eval", "O2_thdm_build_eval", "O3_mssm_slha_convert_eval",
-           "O4_shared_mssm_readonly", "O5_shared_thdm_readonly", "O6_loopfunction_batch", "O7_slha_parse_fill"]
+           "O4_shared_mssm_readonly", "O5_shared_thdm_readonly", "O6_loopfunction_batch", "O7_slha_parse_fill",
+           "O8_thdm_slha_parse_build_eval", "O9_mssm_non_resummed_copy"]
 
 
 def _run(cmd, env=None, timeout=3000):
@@ -106,13 +107,14 @@ def run(ctx):
 
     # ---- schedule pass ---------------------------------------------------------------------
     tasks = [(o, p) for o in range(NOPS) for p in (0, 1)]
-    main_pairs = [((a, 0), (b, 1)) for a in range(NOPS) for b in range(a, NOPS)] + [((3, 0), (3, 0)), ((4, 0), (4, 0)), ((3, 1), (4, 1))]
+    main_pairs = [((a, 0), (b, 1)) for a in range(NOPS) for b in range(a, NOPS)] + [((3, 0), (3, 0)), ((4, 0), (4, 0)), ((3, 1), (4, 1)), ((8, 0), (3, 0)), ((8, 1), (8, 1))]
     jobs = []
     if ctx.quick:
         for pr in main_pairs:
             jobs.append((conc, repo, 2, 1, True, pr))            # warm image, reduced, bound 2
         for b in range(NOPS):
             jobs.append((conc, repo, 2, 2, False, ((6, 0), (b, 1))))   # cold image: static initialisation, visible points
+            jobs.append((conc, repo, 2, 2, False, ((7, 0), (b, 1))))
         jobs.append((conc, repo, 1, 0, False, ((5, 0), (5, 1))))    # full, every block edge
     else:
         for pr in main_pairs:
@@ -122,10 +124,11 @@ def run(ctx):
             jobs.append((conc, repo, 2, 1, True, pr))
         for b in range(NOPS):
             jobs.append((conc, repo, 2, 0, False, ((6, 0), (b, 1))))   # cold image, full
+            jobs.append((conc, repo, 2, 0, False, ((7, 0), (b, 1))))
         for tr in [((5, 0), (5, 1), (1, 0)), ((3, 0), (3, 0), (0, 1)), ((4, 0), (4, 0), (1, 1)), ((6, 0), (6, 1), (2, 0)), ((0, 0), (1, 0), (5, 1))]:
             jobs.append((conc, repo, 1, 1, True, tr))            # three threads
     # longest first
-    weight = {0: 13, 1: 31, 2: 56, 3: 20, 4: 47, 5: 1, 6: 60}
+    weight = {0: 13, 1: 31, 2: 56, 3: 20, 4: 47, 5: 1, 6: 60, 7: 35, 8: 25}
     jobs.sort(key=lambda j: -(1000 if j[3] == 0 else 1) * weight[j[5][0][0]])
     nsched = 0
     outcomes = set()
